@@ -42,13 +42,17 @@ def gen_cases(ctx):
                                             threads=rng.choice([1, 1, 4]))); cid += 1
         for _ in range(200 if thorough else 30):
             cases.append(case_capacity(f"c{cid}", kind, rng, rng.choice([120, 160, 200, 250]))); cid += 1
+    # MTBDD: inner nodes and the reference-counted terminals of the dynamic terminal manager
+    for _ in range(300 if thorough else 40):
+        h, ops = ddgen.mt_case_history(f"m{cid}", rng, length=rng.choice([40, 80]), threads=rng.choice([1, 1, 4]))
+        cases.append((h, ops + ["SNAP", "DROPALL", "GC", "SNAP"])); cid += 1
     return cases
 
 
 def run(ctx):
     ddcommon.run_dd(
         ctx, ["C05"], gen_cases(ctx),
-        rule="per kind (bdd, bcdd, zbdd): random histories (apply, quantification, substitution, clone, drop, drop on another thread, gc, add_vars, set_var_order) with a snapshot and the reference-count audit after every op and a final 'drop all; gc; snapshot'; small-capacity managers (120..500 nodes, automatic collection at the high-water mark, failing operations) framed by the capacity probe. non-trivial = case with >= 3 ops",
+        rule="MTBDD histories (arithmetic, ite, restrict, constants; gc; final drop all + gc: no inner node and no terminal left, after every gc no unreferenced terminal survives); per kind (bdd, bcdd, zbdd): random histories (apply, quantification, substitution, clone, drop, drop on another thread, gc, add_vars, set_var_order) with a snapshot and the reference-count audit after every op and a final 'drop all; gc; snapshot'; small-capacity managers (120..500 nodes, automatic collection at the high-water mark, failing operations) framed by the capacity probe. non-trivial = case with >= 3 ops",
         allowed_axioms=ALLOWED_AXIOMS)
 
 
